@@ -34,6 +34,11 @@ Inductive call :=
 | CDinucObs (X : tensor) (start end_ : Z) (n : nat).
     (* the compiled dinucleotide_shuffle(X, start, end, n, random_state = seed): draws unknown *)
 
+(* literal abbreviation used by the harness for a tensor row / returned sequence that IS exactly
+   one-hot (checked there by an exact round trip): the columns are computed here, so validity and
+   all counts are still evaluated on the real columns *)
+Definition en (A : nat) (s : list nat) : dna := map (onehot A) s.
+
 (* shuffle: [sample][example]; dinucleotide_shuffle: [example][sample] *)
 Definition outcome := res (list batch).
 
